@@ -123,6 +123,7 @@ def content_assertions(ex, info, isd, t, prefix="C01"):
 
 class IsdContentHarness(Harness):
   name = "c01_isd_content"
+  quick_only_for = ("C18",)   # the deep tier runs under the harness's own property; the C18 roll-up reuses the quick partitions
   properties = ("C01", "C13", "C18")
   functions = ("isd:ISD.from_model", "isd:ISD._process_element", "isd:ISD._make_absolute")
   assumptions = ("documents are built through the real model API; begin/end offsets range over all non-negative "
